@@ -3,7 +3,10 @@ package scen
 import (
 	"cosmossdk.io/math"
 	sdk "github.com/cosmos/cosmos-sdk/types"
+	ammtypes "github.com/elys-network/elys/x/amm/types"
 	mctypes "github.com/elys-network/elys/x/masterchef/types"
+	oracletypes "github.com/elys-network/elys/x/oracle/types"
+	sstypes "github.com/elys-network/elys/x/stablestake/types"
 
 	"verifharness/chain"
 	"verifharness/gen"
@@ -45,7 +48,48 @@ func init() {
 		if ok2 := w.GovExec("multipliers", &mctypes.MsgUpdatePoolMultipliers{Authority: w.Gov, PoolMultipliers: []mctypes.PoolMultiplier{{PoolId: 1, Multiplier: chain.Dec("2.0")}, {PoolId: 2, Multiplier: chain.Dec("0.5")}}}); ok2 {
 			c.Ev("multipliers_changed")
 		}
-		g.Free(n/2, g.StdDt)
+		g.Free(n/4, g.StdDt)
+		// price outage around the start of an incentive in a reward denom that is new to its pool: the
+		// oracle parameters are made short-lived, every feed stops until all prices have expired (pool
+		// values evaluate to zero), a user funds an incentive that starts at once, a late provider joins
+		// the constant-product pool after a few paid blocks, the feeds come back
+		if !w.Dead {
+			op := w.App.OracleKeeper.GetParams(w.ReadCtx())
+			op.PriceExpiryTime, op.LifeTimeInBlocks = 30, 6
+			okp := w.GovExec("short-lived prices", &oracletypes.MsgUpdateParams{Authority: w.Gov, Params: op},
+				&mctypes.MsgAddExternalRewardDenom{Authority: w.Gov, RewardDenom: "uusdc", MinAmount: math.NewInt(1), Supported: true})
+			if okp {
+				c.Ev("oracle_params_short_lived")
+			}
+			w.Silent = map[string]bool{"ATOM": true, "USDC": true, "ELYS": true}
+			for i := 0; i < 10 && !w.Dead; i++ {
+				w.Step(7)
+			}
+			h := w.Height
+			w.Step(7, w.Tx(u[5], &mctypes.MsgAddExternalIncentive{Sender: u[5].S(), RewardDenom: "uelys", PoolId: 2, FromBlock: h + 1, ToBlock: h + 40, AmountPerBlock: math.NewInt(1_000_000)}),
+				w.Tx(u[6], &mctypes.MsgAddExternalIncentive{Sender: u[6].S(), RewardDenom: "uatom", PoolId: 32767, FromBlock: h + 1, ToBlock: h + 40, AmountPerBlock: math.NewInt(500_000)}))
+			for i := 0; i < 5 && !w.Dead; i++ {
+				w.Step(7)
+			}
+			lateLP := u[10]
+			if p2, ok := w.App.AmmKeeper.GetPool(w.ReadCtx(), 2); ok && !w.Dead {
+				max := sdk.NewCoins()
+				for _, a := range p2.PoolAssets {
+					max = max.Add(chain.Coin(a.Token.Denom, 1e13))
+				}
+				b := w.Step(7, w.Tx(lateLP, &ammtypes.MsgJoinPool{Sender: lateLP.S(), PoolId: 2, MaxAmountsIn: max, ShareAmountOut: p2.TotalShares.Amount.QuoRaw(3)}),
+					w.Tx(u[9], &sstypes.MsgBond{Creator: u[9].S(), Amount: math.NewInt(v.Scale / 10)}))
+				if !w.Dead && b.Txs[1].OK() {
+					c.Ev("late_join_during_price_outage")
+				}
+			}
+			for i := 0; i < 8 && !w.Dead; i++ {
+				w.Step(7)
+			}
+			w.Silent = map[string]bool{}
+			c.Ev("price_outage_around_incentive_start")
+		}
+		g.Free(n/4, g.StdDt)
 		// drain: everybody claims, seeded random order, consecutive blocks
 		if !w.Dead {
 			perm := g.R.Perm(len(w.All))
